@@ -11,7 +11,7 @@ import random
 
 from .. import structs
 from ..common import Run
-from ..structcorr import build_items, report_unexplained, run_items
+from ..structcorr import Case, build_items, report_unexplained, run_items
 from . import _family as F
 
 
@@ -42,13 +42,23 @@ def check(run: Run) -> None:
     thorough = run.tier == "thorough"
     ok = run.prove("Props/C01.v")
     items, explained, failures, n_oracle = [], set(), 0, 0
+    pending = []
     n = 3000 if thorough else 600
-    for i in range(n):
+    # unions whose largest size is shared by a member that covers every byte (declared first) and one with padding / unassigned bits
+    TIES = ["union U { uint32 a; struct { uint8 x; uint16 y; } s; };", "union U { uint16 a; struct { uint16 f : 4; } s; };",
+            "union U { uint8 raw[8]; struct { uint8 t; uint32 v; } h; };", "union U { struct { uint8 t; uint32 v; } h; uint8 raw[8]; };",
+            "union U { uint64 q; struct { uint32 lo; uint8 hi; } p; uint8 b[8]; };"]
+    tie_cases = []
+    for ut in TIES:
+        for align in (True, False):
+            for endian in ("<", ">"):
+                tie_cases.append(Case(ut + " struct main { uint8 k; U u; uint8 t; };", endian=endian, align=align, compiled=rng.random() < 0.5))
+    for i in range(n + len(tie_cases)):
         static = i % 3 == 0
-        c = F.gen_case(rng, depth=2, unions=(i % 5 == 0), static_only=static, max_fields=6)
-        ds = [F.random_data(rng) for _ in range(2)]
+        c = F.gen_case(rng, depth=2, unions=(i % 5 == 0), static_only=static, max_fields=6) if i < n else tie_cases[i - n]
+        ds = [F.random_data(rng) for _ in range(2)] if i < n else [rng.randbytes(24), bytes(range(0x81, 0x99))]
         c.ops = [op for d in ds for op in (("parse", d, 0), ("dump", d, 0))]
-        if static:
+        if static and i < n:
             c.ops += [("construct", rng.randrange(1 << 30), False), ("construct", rng.randrange(1 << 30), False), ("construct", rng.randrange(1 << 30), True)]
         try:
             its = build_items(c)
@@ -73,6 +83,18 @@ def check(run: Run) -> None:
                     prob = roundtrip_problem(cs, T, r[1], d, has_eof(c.text))
                     if prob and has_eof(c.text) and prob.get("what") == "bytes consumed != len(dumps(v))":
                         prob = None   # [EOF] arrays extend to the end of the input by definition
+                    if prob and has_eof(c.text) and c.align and prob.get("what") == "parse(dumps(v)) != v":
+                        # recorded finding: the tail padding dumps() appends to an aligned structure is swallowed by its trailing [EOF] array.
+                        # Only that: without the zero padding the dump must round-trip.
+                        for k in range(1, min(len(d), max(T.alignment or 1, 1))):
+                            sub = None if any(d[-k:]) else roundtrip_problem(cs, T, r[1], d[:-k], True)
+                            if any(d[-k:]) or (sub is not None and sub.get("what") != "bytes consumed != len(dumps(v))"):
+                                continue       # (the tail alignment seek past the end of the shortened dump is not a value difference)
+                            failures += 1
+                            explained.add(id(it))
+                            run.report("C01/eof-array-reads-tail-padding", {**c.describe(), "ops": [{"op": "dump", "data": it.op[1].hex(), **prob}]})
+                            prob = None
+                            break
                 if prob:
                     prob["data"] = it.op[1].hex()
             elif it.op[0] == "construct" and it.impl:
@@ -93,9 +115,21 @@ def check(run: Run) -> None:
                 failures += 1
                 explained.add(id(it))
                 kind = "overflow-accepted" if (it.op[0] == "construct" and it.op[2]) else ("union" if "union" in c.text else "roundtrip")
+                if kind == "union" and it.op[0] == "dump" and prob.get("what") == "parse(dumps(v)) != v":
+                    # recorded finding (root cause: C11/dump-through-largest-member): the dump of the parsed value differs from the parsed bytes
+                    # only by CLEARED bits - data of other members that is padding / unassigned bits in the union's largest member
+                    orig, out = it.op[1][:it.impl[1][2]], it.impl[2]
+                    if len(out) == len(orig) and out != orig and all(o & ~w == 0 for o, w in zip(out, orig)):
+                        # ... and only if the dump is the one the model of the CURRENT writer produces (decided after the correspondence ran):
+                        # a writer that picks another member is a different, unrecorded behaviour
+                        pending.append((it, {**c.describe(), "ops": [{"op": it.op[0], **{k: v for k, v in prob.items()}}]}))
+                        continue
                 run.report(f"C01/{kind}", {**c.describe(), "ops": [{"op": it.op[0], **{k: v for k, v in prob.items()}}]})
 
     mism = run_items(run, items)
+    bad = {id(m) for m in mism}
+    for it, rep in pending:
+        run.report("C01/union" if id(it) in bad else "C01/union-dumped-through-largest-member", rep)
     report_unexplained(run, mism, explained, "corr_rw (Model.Reader.read_top / Model.Writer.dumps vs the implementation)")
     F.obligation_fallback(run, ok, bool(failures or mism))
     F.finish_cov(run, items, mism,
